@@ -81,7 +81,15 @@ impl Prop for C18 {
         };
         let gw = (0u8..4, 0u8..4, 0u8..10, 100u64..116).prop_map(|(a, t, s, time)| Op::Store(giftwrap(a, t, s, time)));
         (
-            prop::collection::vec(prop_oneof![5 => op_strategy(w, cfg), 1 => gw], 0..=tier.pick(30, 100)),
+            prop::collection::vec(
+                prop_oneof![
+                    10 => op_strategy(w, cfg),
+                    2 => gw,
+                    // the key's own request to vanish, stored like any event before it is acted upon
+                    1 => (0u8..4, 100u64..116).prop_map(|(a, t)| Op::Store(GenEvent { author: a, kind: 62, created_at: t, tags: vec![vec!["relay".to_string(), "ALL_RELAYS".to_string()]], content_len: 0, idc: IdChoice::Hash, many: 0 })),
+                ],
+                0..=tier.pick(30, 100),
+            ),
             0u8..2,
         )
             .prop_map(|(ops, n_extra)| Case { ops, n_extra, scale: 0 })
